@@ -15,7 +15,8 @@ EXPLANATION = (
     'is_client_error || is_server_error edges and otherwise builds the response from the same status, the snapshotted headers '
     'and the same body; R15.c both APIs return a shell-reported error unmodified; R15.d decoders propagate every failure as an '
     'error value; R15.e the only headers written on the path are the shell\'s (a side-effecting set_body is undone before they '
-    'are appended, and headers are snapshotted before the body is taken). Decoder conformance (encoding_rs, serde_json) is trusted.')
+    'are appended, and headers are snapshotted before the body is taken); R15.f decode_body produces a String only behind the success edge of '
+    'the charset-label lookup. Decoder conformance (encoding_rs, serde_json) is trusted.')
 
 HT = 'http_types_red_badger_temporary_fork'
 SAFE_STATUS_T = HT + '::status_code::StatusCode'
@@ -116,6 +117,7 @@ def check(ctx, rep):
         check_passthrough(rep, http, cfg)
         check_decoders(rep, http, cfg, cg)
         check_header_writes(rep, http, cfg)
+        check_charset_consulted(rep, http, cfg)
     controls(ctx, rep)
     rep.assume('http_types fork: Response::new/insert_header/append_header/Headers::{insert,append} unwrap their conversions; '
                'set_body/replace_body/take_body copy the body MIME type into Content-Type when absent (read in the fork source)')
@@ -353,3 +355,55 @@ def controls(ctx, rep):
     rep.control('R15.a fires on append_header(&str, String)', bool(fs) and any(panicking_entry(t) for _, t in fs[0].calls()))
     fs = c.find('c15::good_status')
     rep.control('R15.a quiet on Response::new(StatusCode)', bool(fs) and not any(panicking_entry(t) for _, t in fs[0].calls()))
+
+
+LABEL_CALLS = ['encoding_rs::Encoding::for_label', 'encoding_rs::Encoding::for_label_no_replacement', 'crux_http::response::decode::is_utf8_encoding',
+               'core::str::<impl str>::eq_ignore_ascii_case']
+
+
+def check_charset_consulted(rep, http, cfg):
+    """R15.f: the declared charset decides how a body is decoded: decode_body produces a String only after the encoding label was
+    looked up (and on its success edge); bytes that merely happen to be valid UTF-8 are not returned without consulting it"""
+    rep.rule('R15.f', 'decode_body returns a decoded String only after the declared charset label was consulted', floor=1)
+    fs = [f for f in http.built if f.kind == 'Fn' and f.name == 'decode_body']
+    if not fs:
+        rep.missing('R15.f', 'decode_body (%s)' % cfg)
+        return
+    for f in fs:
+        label = None
+        for i in range(1, f.argc + 1):
+            if 'core::option::Option<&str>' in f.locals[i] or 'Option<&' in f.locals[i]:
+                label = i
+        lookups = []
+        for bb, t in f.calls(*LABEL_CALLS):
+            # the looked-up label derives from the charset parameter
+            if any(any(o.kind == 'arg' and o.n == label for o in origins(f, a, extra_identity=[
+                    ('core::option::Option::unwrap_or', 0), ('core::str::<impl str>::as_bytes', 0), ('core::option::Option::unwrap_or_default', 0)]))
+                    for a in t['args']):
+                lookups.append((bb, t))
+        oks = [bb for bb, i, s_ in f.stmts('assign') if s_['rv']['k'] == 'agg' and s_['rv'].get('adt') == 'core::result::Result' and s_['rv']['variant'] == 'Ok']
+        key = '%s|charset-consulted' % f.kpath
+        good = label is not None and bool(lookups) and bool(oks)
+        if good:
+            for ob in oks:
+                if not any(f.dominates(lb, ob) and lb != ob for lb, _ in lookups):
+                    good = False
+            # and on the success edge of the lookup: removing it makes every Ok unreachable
+            for lb, lt in lookups[:1]:
+                res = lt['d']['l']
+                succ_edges = []
+                for sb, st in f.terms('switch'):
+                    for o in origins(f, st['a']):
+                        if (o.kind == 'call' and o.bb == lb and not o.suffix) or \
+                                (o.kind == 'rvalue' and o.stmt['rv']['k'] == 'discr' and o.stmt['rv']['a']['l'] == res):
+                            # success = Some (1) for for_label, true (non-zero) for the bool tests
+                            tgt = None
+                            for v, b in st['arms']:
+                                if v == 1:
+                                    tgt = b
+                            succ_edges.append((sb, tgt if tgt is not None else st['otherwise']))
+                if not succ_edges or any(ob in f.reachable([0], removed_edges=succ_edges) for ob in oks):
+                    good = False
+        rep.expect('R15.f', good, key, 'every Ok(String) lies behind the success edge of the label lookup',
+                   '%s can return a decoded String without (or before) consulting the declared charset: a body whose bytes happen to be valid '
+                   'UTF-8 is returned as is although its Content-Type names another encoding' % f.path, site=key + '@' + cfg)
